@@ -36,7 +36,7 @@ LEVEL = "exploration"
 SKEW = [
     "float literal with exponent (`1e3`): not lexed by 2.11.dev",
     "`{%+` / `{#+` when lstrip_blocks is off: rejected by 2.11.dev, accepted (no-op) by 3.x -> generated only under lstrip_blocks",
-    "`+%}` (disable trim_blocks) and `{{+`: 3.x only",
+    "`+%}` (disable trim_blocks): 3.x only",
     "line boundaries other than LF/CR/CRLF (VT FF FS GS RS NEL LS PS) in template source: 2.11.dev splits with str.splitlines()",
     "filters/tests added after 2.11: `items`, `is boolean/integer/float/true/false/filter/test`",
     "`wordwrap` (keeps existing newlines since 2.11 final) and `{#+` under lstrip_blocks (2.11.dev strips the comment's indentation anyway)",
@@ -474,6 +474,10 @@ def judge_all(ctx, judge, cases, pool, slab, keep=None):
             for i, ln, _n in lines:
                 k = cmap[i // 64]["k"]
                 if k not in keep and i not in rej and '"ok":1' in ln:
+                    if k == "marker":  # for the self-test: an accepted record in which the marker visibly did something
+                        r = json.loads(ln)
+                        if not (r["m"]["ok"] and r["p"]["ok"] and r["ws"] and r["m"]["out"] != r["p"]["out"]):
+                            continue
                     keep[k] = (ln, cmap[i // 64])
         base += len(part)
     judge.stats["next_rid"] = base
@@ -654,7 +658,16 @@ def selftests(ctx, keep):
     r = json.loads(keep["ifuses"][0])
     r["b"] = {"ok": 1, "out": (r["b"].get("out") or []) + cps("E\n")}
     tests.append(("ifuses: another branch rendered", r, "jinja.ifuses"))
-    # marker: a synthetic record built from an accepted one -- the prefix is missing on the second line
+    r = json.loads(keep["ifuses"][0])
+    r["cl"][0]["neg"] = not r["cl"][0]["neg"]
+    tests.append(("ifuses: expected outcome perturbed (first clause negated in the stimulus, renderings kept)", r, ("jinja.ifuses", "harness.ifuses")))
+    r = json.loads(keep["marker"][0])
+    r["m"] = dict(r["p"])
+    tests.append(("marker: recorded marker rendering replaced by the plain rendering", r, "jinja.lineprefix"))
+    r = json.loads(keep["marker"][0])
+    r["ws"] = r["ws"] + [32]
+    tests.append(("marker: recorded prefix one blank longer than the one rendered", r, "jinja.lineprefix"))
+    # marker, synthetic: the prefix is missing on the second line only
     r = {"id": 0, "k": "marker", "ck": "var", "pre": cps("A\n"), "post": cps("\nZ"), "ws": cps("  "), "s": {"ok": 1, "out": cps("A\na\nb\nZ")},
          "p": {"ok": 1, "out": cps("A\na\nb\nZ")}, "m": {"ok": 1, "out": cps("A\n  a\nb\nZ")}}
     tests.append(("marker: prefix missing on the second line", r, "jinja.lineprefix"))
@@ -675,7 +688,7 @@ def selftests(ctx, keep):
             if got is not None:
                 raise MachineryFailure("self-test control rejected: %s (%s)" % (name, got))
         else:
-            ctx.selftest(name, got == exp)
+            ctx.selftest(name, got in exp if isinstance(exp, tuple) else got == exp)
 
 
 def replay(ctx, case):
